@@ -78,7 +78,7 @@ def failing_iterable(objs, how, raise_at=None, exc=Boom):
 class ArrayHistory(Engine):
     """oracles: subset of {'model','fresh','prefix','reject','decoder','readme','meta','ro','leak'}"""
     prop = 'C03'
-    oracles = ('model', 'fresh', 'prefix', 'reject', 'outcome')
+    oracles = ('model', 'fresh', 'prefix', 'reject', 'outcome', 'attrs')
     weights = dict(append=20, iterappend=12, setitem=12, truncate=14, mode=5, reopen=10,
                    append_bad=6, truncate_bad=6, meta=0, recreate=0, iterappend_fail=4, iterbreak=3)
     minops, maxops = 3, 25
@@ -748,8 +748,11 @@ class _State:
     def do_meta(self, op):
         pre = snapshot(self.path)
         out, problem = M.apply_meta_op(op, self.h.metadata, self.meta)
-        if problem and self.has('meta'):
+        if problem and (self.has('meta') or (self.has('outcome') and 'raises' in problem[1])):
             raise Viol(*problem)
+        if problem:
+            # exception classes and refusals of metadata calls are C13's clauses; the model cannot follow
+            raise Diverged(f'{problem[0]}:{problem[1]}')
         if out in ('rejected', 'keyerror', 'default'):
             d = M.state_diff(pre, snapshot(self.path))
             if d and self.has('meta'):
@@ -987,7 +990,10 @@ class _State:
         except Exception as e:
             raise Viol(f'{who}.observe', f'raises:{type(e).__name__}', str(e)[:300])
         exp = (m.shape[0], tuple(m.shape), int(m.size), int(m.nbytes), D.dtstr(m.dtype))
-        if obs != exp:
+        if obs != exp and not self.has('attrs'):
+            # len/size/nbytes are C03's clause; elsewhere only what array equality needs (shape, dtype: below)
+            self.probe('attribute_differs_from_model_not_this_propertys_subject')
+        elif obs != exp:
             names = ('len', 'shape', 'size', 'nbytes', 'dtype')
             bad = [n for n, a, b in zip(names, obs, exp) if a != b]
             raise Viol(f'{who}.attrs', 'mismatch:' + ','.join(bad), f'{obs} != {exp}')
@@ -1039,6 +1045,18 @@ class _State:
                 raise Viol('fresh.open', f'raises:{type(e).__name__}', str(e)[:300])
             self.observe(fresh, 'fresh')
         self.disk_oracles(fresh=fresh, in_ctx=in_ctx)
+        if self.has('metacontent'):
+            # "with identical metadata" (C15): the content only, through the live and a fresh handle
+            r = M.check_meta(self.h.metadata, self.meta, os.path.join(self.path, 'metadata.json'), 'live', content_only=True)
+            if r:
+                raise Viol(*r)
+            try:
+                fm = self.darr.Array(self.path).metadata
+            except Exception as e:
+                raise Viol('fresh.open', f'raises:{type(e).__name__}', str(e)[:300])
+            r = M.check_meta(fm, self.meta, os.path.join(self.path, 'metadata.json'), 'fresh', content_only=True)
+            if r:
+                raise Viol(*r)
         if self.has('meta'):
             r = M.check_meta(self.h.metadata, self.meta, os.path.join(self.path, 'metadata.json'), 'live')
             if r:
